@@ -45,19 +45,41 @@ def input_driven(R, excs):
 def lower_bound_progress(ctx, repo, R, fi, construct):
     """R-LOWER for the `while index < len(stream)` loop of a load() function."""
     fn = fi.node
-    loop = next((s for s in fn.body if isinstance(s, ast.While)), None)
+    loop = next((s for s in walk_no_nested(fn) if isinstance(s, ast.While)), None)
     if loop is None:
         ctx.undecided("R-LOWER/progress", construct, fi.where(), "no while loop found", key="loop")
         return
     test_names = {n.id for n in ast.walk(loop.test) if isinstance(n, ast.Name)}
-    cands = [s for s in walk_no_nested(loop) if isinstance(s, ast.AugAssign) and isinstance(s.target, ast.Name)
-             and s.target.id in test_names and isinstance(s.op, ast.Add)]
-    idx = cands[0].target.id if cands else None
-    incs = [s for s in cands if s.target.id == idx]
+    # stores to a name of the loop test: `idx += E`, or `idx = E'` where E' expands (through locals assigned once in the
+    # loop) to idx + E
+    single = {}
+    for s_ in walk_no_nested(loop):
+        if isinstance(s_, ast.Assign) and len(s_.targets) == 1 and isinstance(s_.targets[0], ast.Name):
+            single.setdefault(s_.targets[0].id, []).append(s_.value)
+
+    def flat(e, depth=0):
+        if isinstance(e, ast.BinOp) and isinstance(e.op, ast.Add):
+            return flat(e.left, depth) + flat(e.right, depth)
+        if isinstance(e, ast.Name) and e.id not in test_names and len(single.get(e.id, [])) == 1 and depth < 4 \
+                and isinstance(single[e.id][0], ast.BinOp) and isinstance(single[e.id][0].op, ast.Add) \
+                and any(isinstance(x, ast.Name) and x.id in test_names for x in ast.walk(single[e.id][0])):
+            return flat(single[e.id][0], depth + 1)
+        return [e]
+    cands = []
+    for s_ in walk_no_nested(loop):
+        if isinstance(s_, ast.AugAssign) and isinstance(s_.target, ast.Name) and s_.target.id in test_names and isinstance(s_.op, ast.Add):
+            cands.append((s_.target.id, s_, flat(s_.value)))
+        elif isinstance(s_, ast.Assign) and len(s_.targets) == 1 and isinstance(s_.targets[0], ast.Name) and s_.targets[0].id in test_names:
+            parts = flat(s_.value)
+            own = [x for x in parts if isinstance(x, ast.Name) and x.id == s_.targets[0].id]
+            if len(own) == 1:
+                cands.append((s_.targets[0].id, s_, [x for x in parts if x is not own[0]]))
+    idx = cands[0][0] if cands else None
+    incs = [c for c in cands if c[0] == idx]
     if idx is None or len(incs) != 1:
         ctx.undecided("R-LOWER/progress", construct, fi.where(loop), "index increment not recognised", key="inc")
         return
-    inc = incs[0]
+    inc, inc_atoms = incs[0][1], incs[0][2]
     lt = R.local_types(fi)
     # exception edges only from statements that really may raise (hazards + callee escape sets)
     cfg = CFG(fn, R.node_raises(fi, lt, None, None), R.hier)
@@ -70,7 +92,7 @@ def lower_bound_progress(ctx, repo, R, fi, construct):
 
     total = 0
     details = []
-    for a in atoms(inc.value):
+    for a in inc_atoms:
         lb, why = lower_of(ctx, repo, fi, cfg, loop, inc_node, a)
         if lb is None:
             ctx.undecided("R-LOWER/progress", construct, fi.where(inc), f"no lower bound for `{ast.unparse(a)}`: {why}", key="lb")
@@ -79,7 +101,7 @@ def lower_bound_progress(ctx, repo, R, fi, construct):
         details.append(f"{ast.unparse(a)} >= {lb} ({why})")
     ctx.decide(total >= 1, "R-LOWER/progress", construct, fi.where(inc),
                "loop index strictly advances: " + "; ".join(details),
-               f"the loop index `{idx}` advances by `{ast.unparse(inc.value)}` whose proven lower bound is {total} "
+               f"the loop index `{idx}` advances by `{' + '.join(ast.unparse(a) for a in inc_atoms)}` whose proven lower bound is {total} "
                f"({'; '.join(details)}): a length field of 0 (or less than the header) makes the decoder spin forever or mis-split "
                f"the stream", key="progress")
     # the increment is reached on every normal path of the body
@@ -132,6 +154,12 @@ def lower_of(ctx, repo, fi, cfg, loop, use_node, a):
 
 
 def _nonneg_expr(repo, fi, e):
+    # a local that is assigned once (x = y % c) stands for its definition
+    if isinstance(e, ast.BinOp) and isinstance(e.right, ast.Name):
+        defs = [n.value for n in walk_no_nested(fi.node) if isinstance(n, ast.Assign) and len(n.targets) == 1
+                and isinstance(n.targets[0], ast.Name) and n.targets[0].id == e.right.id]
+        if len(defs) == 1 and isinstance(defs[0], ast.BinOp) and isinstance(defs[0].op, ast.Mod):
+            e = ast.BinOp(left=e.left, op=e.op, right=defs[0])
     v = repo.fold(fi.mod, e)
     if isinstance(v, int):
         return v >= 0
